@@ -3,7 +3,7 @@
 # build+test in a scratch worktree and install to /verif/benign/<ID>-b<k+offset>/
 set -u
 export GOFLAGS=-mod=mod GOPROXY=off
-ID=$1; SFX=${2:-b}; OFF=${3:-0}; WT=/tmp/bw-$ID
+ID=$1; SFX=${2:-b}; OFF=${3:-0}; RND=${4:-}; WT=/tmp/bw-$ID
 git -C /repo worktree add -q --detach $WT HEAD 2>/dev/null || { rm -rf $WT; git -C /repo worktree prune; git -C /repo worktree add -q --detach $WT HEAD; }
 for d in /tmp/seed-out/${ID}${SFX}/v*/; do
   k=$(basename $d); [ -f $d/patch.diff ] || continue
@@ -16,7 +16,7 @@ for d in /tmp/seed-out/${ID}${SFX}/v*/; do
   n=${k#v}; DST=/verif/benign/$ID-b$((n+OFF)); 
   if $OK; then
     mkdir -p $DST; cp $d/patch.diff $DST/; 
-    jq --arg pk "$PK" --arg off "$OFF" '. + {confirmed_by_me:{how:("scratch worktree: go build ./..., go vet + go test -count=1 of touched packages ("+$pk+") plus ./controller ./speaker ./internal/allocator ./internal/config: green"), result:true}, origin:"independent sub-agent that saw only the property text", round:(if $off == "0" then 1 else 2 end)}' $d/meta.json > $DST/meta.json
+    jq --arg pk "$PK" --arg off "$OFF" --arg rnd "$RND" '. + {confirmed_by_me:{how:("scratch worktree: go build ./..., go vet + go test -count=1 of touched packages ("+$pk+") plus ./controller ./speaker ./internal/allocator ./internal/config: green"), result:true}, origin:"independent sub-agent that saw only the property text", round:(if $rnd != "" then ($rnd|tonumber) elif $off == "0" then 1 else 2 end)}' $d/meta.json > $DST/meta.json
     echo "$ID $k: confirmed"
   else echo "$ID $k: FAILED"; echo "$LOG" | tail -15; fi
 done
